@@ -135,6 +135,41 @@ func gcScenario2286(c *Ctx) (*gcHist, bool, error) {
 	return g, c.nFail > nf, nil
 }
 
+// F26: the delete is committed during the rewrite (clamp-protected while gcActive) and flushed;
+// the write-back puts the old version into the memtable, ABOVE the tombstone; after the
+// rewrite has ended a last-level compaction of the L0 tables drops the tombstone and the old
+// copy below it, and the write-back copy becomes visible.
+func gcScenarioF26(c *Ctx) (*gcHist, bool, error) {
+	g, err := newGcHist(c, gcOpts(false), 1)
+	if err != nil {
+		return nil, false, err
+	}
+	defer g.closeAll()
+	g.keys = [][]byte{[]byte("k"), []byte("p")}
+	k := []byte("k")
+	g.write(k, big('v'))
+	g.write([]byte("p"), big('p'))
+	g.flush()
+	nf := c.nFail
+	err = g.gcRun(1, 0, nil, func() {
+		g.write(k, nil)
+		g.flush()
+	}, nil)
+	if err != nil {
+		return g, false, err
+	}
+	g.refCheck("rewrite") // still deleted here
+	g.bumpWatermark()
+	if _, err := g.compact(0, false, nil); err != nil {
+		return g, false, err
+	}
+	g.dump()
+	g.refCheck("compaction after the rewrite ended")
+	rep := c.nFail > nf
+	g.finish()
+	return g, rep, nil
+}
+
 // deferred deletion: an iterator is open when the rewrite finishes; the file stays until the
 // iterator is closed and the iterator still reads the old pointers.
 func gcScenarioDeferred(c *Ctx) (*gcHist, bool, error) {
@@ -241,6 +276,7 @@ type gcScenario struct {
 var gcScenarios = []gcScenario{
 	{"F2", gcScenarioF2},
 	{"F23", gcScenarioF23},
+	{"F26", gcScenarioF26},
 	{"2286-regression", gcScenario2286},
 	{"deferred-deletion", gcScenarioDeferred},
 	{"F8", gcScenarioF8},
